@@ -1,21 +1,21 @@
 (* C01 - schema validation accepts exactly the values the schema allows.
    Only statements, closed by `exact`, with Print Assumptions, refuted witnesses for each guard
    and non-vacuity examples. *)
-From KV Require Import Model.Base Model.Json Model.Schema Spec.SchemaSpec Spec.SchemaGuards
+From KV Require Import Model.Base Model.Json Model.Schema Spec.SchemaSpec Spec.SchemaGuards Spec.SchemaGuardsRW
      Proofs.SchemaProofs Proofs.SchemaMain.
 Local Open Scope list_scope.
 
-(* For every regexp/format oracle, every validation mode (default, fail-fast, multi-error; plain
-   reading, i.e. not as request/response), every tree schema of any depth and every JSON value:
-   under the named guards, validation does not panic and succeeds iff the value satisfies the
-   schema (Spec/SchemaSpec.satb). *)
+(* For every regexp/format oracle, every settings record (default, fail-fast, multi-error; plain
+   reading, reading as a request or as a response, with or without the read-only / write-only
+   exclusions), every tree schema of any depth and every JSON value: under the named guards,
+   validation does not panic and succeeds iff the value satisfies the schema in that reading
+   (Spec/SchemaSpec.satb with the mode md_of st). *)
 Theorem C01_visit_iff_sat :
   forall rc rm fo st s v,
-    st_asreq st = false -> st_asrep st = false ->
-    g_all rc s = true -> vg v = true -> g_div s v = true ->
+    g_all2 rc rm fo (md_of st) s = true -> vg v = true -> g_div s v = true ->
     is_panic (visit rc rm fo st s v) = false /\
-    accepts (visit rc rm fo st s v) = satb rc rm fo s v.
-Proof. intros rc rm fo st s v Hq Hp. exact (main_visit rc rm fo st Hq Hp s v). Qed.
+    accepts (visit rc rm fo st s v) = satb rc rm fo (md_of st) s v.
+Proof. intros rc rm fo st s v. exact (main_visit rc rm fo st s v). Qed.
 Print Assumptions C01_visit_iff_sat.
 
 (* ---- each guard is necessary: refuted witnesses (also the replay inputs of the findings) ---- *)
@@ -29,32 +29,32 @@ Definition fo0 (_ _ : string) (_ : json) : option bool := None.
 (* class 1: {"not":{}} is IsEmpty, so every non-null value is accepted *)
 Theorem C01_refuted_isempty_shortcut :
   let s := Sch core0 (Some s0) [] [] [] None [] None in
-  accepts (visit rc1 rm1 fo0 st_default s (JNum 1)) = true /\ satb rc1 rm1 fo0 s (JNum 1) = false.
+  accepts (visit rc1 rm1 fo0 st_default s (JNum 1)) = true /\ satb rc1 rm1 fo0 md_plain s (JNum 1) = false.
 Proof. vm_compute. split; reflexivity. Qed.
 (* class 1, second form: {"properties":{"a":{}}} accepts {"a":null} *)
 Theorem C01_refuted_isempty_shortcut_null_member :
   let s := Sch core0 None [] [] [] None [("a", s0)] None in
   accepts (visit rc1 rm1 fo0 st_default s (JObj [("a", JNull)])) = true /\
-  satb rc1 rm1 fo0 s (JObj [("a", JNull)]) = false.
+  satb rc1 rm1 fo0 md_plain s (JObj [("a", JNull)]) = false.
 Proof. vm_compute. split; reflexivity. Qed.
 (* class 2: exclusiveMinimum without minimum panics where the spec accepts *)
 Theorem C01_refuted_exclusive_without_bound :
   let c := mkCore None [] false false false false "" false true false None None None 0 None "" 0 None [] 0 None None in
   let s := Sch c None [] [] [] None [] None in
-  is_panic (visit rc1 rm1 fo0 st_default s (JNum 1)) = true /\ satb rc1 rm1 fo0 s (JNum 1) = true.
+  is_panic (visit rc1 rm1 fo0 st_default s (JNum 1)) = true /\ satb rc1 rm1 fo0 md_plain s (JNum 1) = true.
 Proof. vm_compute. split; reflexivity. Qed.
 (* class 3: [0,-0] passes uniqueItems (text comparison) although 0 = -0 *)
 Theorem C01_refuted_unique_negzero :
   let c := mkCore None [] false false false false "" true false false None None None 0 None "" 0 None [] 0 None None in
   let s := Sch c None [] [] [] None [] None in
   let v := JArr [JNum 0; JNum (-0)] in
-  accepts (visit rc1 rm1 fo0 st_default s v) = true /\ satb rc1 rm1 fo0 s v = false.
+  accepts (visit rc1 rm1 fo0 st_default s v) = true /\ satb rc1 rm1 fo0 md_plain s v = false.
 Proof. vm_compute. split; reflexivity. Qed.
 (* class 4: minLength 2^63 wraps to a negative int64 and never fails *)
 Theorem C01_refuted_huge_bound :
   let c := mkCore None [] false false false false "" false false false None None None 9223372036854775808 None "" 0 None [] 0 None None in
   let s := Sch c None [] [] [] None [] None in
-  accepts (visit rc1 rm1 fo0 st_default s (JStr "a")) = true /\ satb rc1 rm1 fo0 s (JStr "a") = false.
+  accepts (visit rc1 rm1 fo0 st_default s (JStr "a")) = true /\ satb rc1 rm1 fo0 md_plain s (JStr "a") = false.
 Proof. vm_compute. split; reflexivity. Qed.
 (* class 5: multipleOf 0 against 0 panics (big.NewFloat(NaN)) *)
 Theorem C01_refuted_multipleof_zero :
@@ -83,8 +83,9 @@ Definition ex_schema : schema :=
 Definition ex_good : json := JObj [("l", JArr [JNum 2; JNum 4]); ("n", JNum 6); ("s", JStr "ab")].
 Definition ex_bad : json := JObj [("l", JArr [JNum 2; JNum 2]); ("n", JNum 6)].
 Example C01_hyps_satisfiable :
-  g_all rc1 ex_schema = true /\ vg ex_good = true /\ g_div ex_schema ex_good = true /\
+  g_all2 rc1 (fun p s => String.prefix "a" s) fo0 md_plain ex_schema = true /\
+  g_all2 rc1 (fun p s => String.prefix "a" s) fo0 (md_of st_multi_) ex_schema = true /\ vg ex_good = true /\ g_div ex_schema ex_good = true /\
   vg ex_bad = true /\ g_div ex_schema ex_bad = true /\
-  satb rc1 (fun p s => String.prefix "a" s) fo0 ex_schema ex_good = true /\
-  satb rc1 (fun p s => String.prefix "a" s) fo0 ex_schema ex_bad = false.
+  satb rc1 (fun p s => String.prefix "a" s) fo0 md_plain ex_schema ex_good = true /\
+  satb rc1 (fun p s => String.prefix "a" s) fo0 md_plain ex_schema ex_bad = false.
 Proof. vm_compute. repeat split; reflexivity. Qed.
